@@ -286,3 +286,134 @@ Definition check_c12 (d : doc) (pd : pdoc) : nat :=
     else if negb (list_eqb Z.eqb (flat_map item_fonts have) (flat_map item_fonts want)) then 3
     else 0
   end.
+
+Local Open Scope nat_scope.
+
+(* ---- roles of observed items (sentinel conventions; never the pagination or border logic) ---- *)
+Inductive role := RBreak | RTitle | RSubline | RSubHeading | RHeader | RHeading | RData (i : nat)
+                | RFootRow | RFootPara | RSrcRow | RSrcPara | RPict | RPage | RUnknown.
+
+Definition first_char (s : str) : option N := match s with c :: _ => Some c | [] => None end.
+
+Definition is_subheading_pf (pf : list tok) : bool :=
+  tok_list_eqb pf [ctrl "hyphpar"; ctrlz "fi" 0; ctrlz "li" 0; ctrlz "ri" 0; ctrl "ql"].
+
+Definition classify (colnames : list str) (i : item) : role :=
+  match i with
+  | IBreak _ => RBreak
+  | IPage => RPage
+  | IPict _ => RPict
+  | IPara pf rs =>
+    match rs with
+    | r :: _ =>
+      match first_char (run_text r) with
+      | Some 84%N => RTitle
+      | Some 83%N => RSubline
+      | Some 70%N => RFootPara
+      | Some 82%N => RSrcPara
+      | Some 64%N => if is_subheading_pf pf then RSubHeading else RUnknown
+      | _ => if is_subheading_pf pf then RSubHeading else RUnknown
+      end
+    | [] => RUnknown
+    end
+  | IRow r =>
+    match row_tag r with
+    | Some t => RData t
+    | None =>
+      match rw_cells r with
+      | [c] =>
+        match first_char (cell_text c) with
+        | Some 70%N => RFootRow
+        | Some 82%N => RSrcRow
+        | Some 72%N => RHeader
+        | _ => if mem_str (cell_text c) colnames then RHeader else RHeading
+        end
+      | cs =>
+        if all_b (fun c => match first_char (cell_text c) with Some 72%N => true | _ => mem_str (cell_text c) colnames end) cs
+        then RHeader else RUnknown
+      end
+    end
+  end.
+
+Definition role_rank (r : role) : nat :=
+  match r with
+  | RBreak => 0 | RTitle => 1 | RSubline => 2 | RSubHeading => 3 | RHeader => 4
+  | RHeading => 5 | RData _ => 5 | RFootRow => 6 | RFootPara => 6 | RSrcRow => 7 | RSrcPara => 7
+  | RPict => 5 | RPage => 8 | RUnknown => 9
+  end.
+
+Fixpoint nondecreasing (l : list nat) : bool :=
+  match l with
+  | a :: ((b :: _) as r) => Nat.leb a b && nondecreasing r
+  | _ => true
+  end.
+
+Definition count_role (p : role -> bool) (rs : list role) : nat := length (filter p rs).
+Definition is_title r := match r with RTitle => true | _ => false end.
+Definition is_subline r := match r with RSubline => true | _ => false end.
+Definition is_foot r := match r with RFootRow | RFootPara => true | _ => false end.
+Definition is_src r := match r with RSrcRow | RSrcPara => true | _ => false end.
+Definition is_header r := match r with RHeader => true | _ => false end.
+Definition is_unknown r := match r with RUnknown => true | _ => false end.
+
+Definition placement (loc : str) (first last : bool) : bool :=
+  str_eqb loc (s2l "all") || (str_eqb loc (s2l "first") && first) || (str_eqb loc (s2l "last") && last).
+
+Definition want_count (present shown : bool) : nat := if present && shown then 1 else 0.
+
+Definition n_header_rows (d : doc) (b : body) : nat :=
+  length (filter (fun o => match o with
+                           | Some h => match h_text h with Some _ => true | None => b_as_colheader b end
+                           | None => false end)
+                 (flat_headers (d_headers d))).
+
+Definition expected_geom (pg : page) : geom := geom_of pg.
+
+(* ---- C06 ---- *)
+(* clause ids: 1 order; 2 title/subline placement; 3 footnote placement; 4 source placement; 5 column
+   headers; 6 geometry after a page break; 7 \header / \footer destinations; 8 document-start geometry;
+   9 unclassifiable item *)
+Fixpoint c06_pages (d : doc) (colnames : list str) (nhdr : nat) (pbh : bool) (pages : list (list item))
+         (idx total : nat) : nat :=
+  match pages with
+  | [] => 0
+  | p :: rest =>
+    let pg := d_page d in
+    let first := Nat.eqb idx 0 in
+    let last := Nat.eqb (S idx) total in
+    let roles := map (classify colnames) p in
+    let has o := match o with Some t => truthy_l (tc_text t) | None => false end in
+    let hastt o := match o with Some t => truthy_s (tt_text t) | None => false end in
+    let is_fig := match d_content d with CFigure _ => true | _ => false end in
+    let geom_ok := match p with
+                   | IBreak g :: _ => geom_eqb g (expected_geom pg)
+                   | _ => first
+                   end in
+    if any_b is_unknown roles then 9
+    else if negb (nondecreasing (map role_rank roles)) then 1
+    else if negb (Nat.eqb (count_role is_title roles) (want_count (has (d_title d)) (placement (p_title pg) first last))) then 2
+    else if negb (Nat.eqb (count_role is_subline roles)
+                          (want_count (has (d_subline d)) (if is_fig then first else placement (p_title pg) first last))) then 2
+    else if negb (Nat.eqb (count_role is_foot roles) (want_count (hastt (d_footnote d)) (placement (p_footnote pg) first last))) then 3
+    else if negb (Nat.eqb (count_role is_src roles) (want_count (hastt (d_source d)) (placement (p_source pg) first last))) then 4
+    else if negb is_fig && negb (Nat.eqb (count_role is_header roles) (if first || pbh then nhdr else 0)) then 5
+    else if negb geom_ok then 6
+    else c06_pages d colnames nhdr pbh rest (S idx) total
+  end.
+
+Definition check_c06 (d : doc) (pd : pdoc) : nat :=
+  let pg := d_page d in
+  let shown o := match text_shown o with Some _ => 1 | None => 0 end in
+  if negb (Nat.eqb (length (pd_header pd)) (shown (d_page_header d)))
+     || negb (Nat.eqb (length (pd_footer pd)) (shown (d_page_footer d))) then 7
+  else if negb (geom_eqb (pd_geom pd) (expected_geom pg)) || negb (Bool.eqb (pd_landscape pd) (p_landscape pg)) then 8
+  else
+    match d_content d with
+    | CSingle f b =>
+      let pages := observed_pages pd in
+      c06_pages d (f_cols f) (n_header_rows d b) (b_pageby_header b) pages 0 (length pages)
+    | CFigure _ =>
+      let pages := observed_pages pd in
+      c06_pages d [] 0 false pages 0 (length pages)
+    | CMulti _ => 0
+    end.
